@@ -83,7 +83,17 @@ class C14Scenario(ChangeScenario):
                 # was it being deleted at the start, or deleted at any time later? then only the opted-in ones (if at all)
                 deleted_later = any(w['verb'] in ('mark-deleted', 'delete') for w in env.world.writes
                                     if w['kind'] == K.plural and (w['pre'] or {}).get('metadata', {}).get('uid') == uid and w['t'] >= t0)
-                if 'deletionTimestamp' in state['metadata'] or deleted_later or not alive:
+                if 'deletionTimestamp' in state['metadata']:
+                    # being deleted when the process starts (deleted during the downtime), still held by kopf's finalizer: the resume handlers
+                    # that opted in (deleted=True) run in the deletion cycle, once; the others do not
+                    from kv.harness.change import FINALIZER
+                    if FINALIZER in (state['metadata'].get('finalizers') or []):
+                        for hid in resume:
+                            if resume[hid].get('deleted') and resume[hid].get('script', ['ok'])[-1].startswith('ok') and not succ.get((op, uid, hid)):
+                                out.append(self.viol(env, 'not-resumed', f"resume handler {hid} (deleted=True) never ran for object {uid}, which was being deleted "
+                                                                         f"when process {op} started at {t0}", clause='opted-in-for-deleted'))
+                    continue
+                if deleted_later or not alive:
                     continue
                 for hid in resume:
                     n = len(succ.get((op, uid, hid), []))
@@ -96,7 +106,7 @@ class C14Scenario(ChangeScenario):
 
 def histories(depth: int) -> list[list[tuple[str, ...]]]:
     alphabet: list[tuple[str, ...]] = [('spec', 'a', 2), ('status', 'a', 7), ('delete', 'a'), ('relist',), ('reconnect',),
-                                       ('restart',), ('killrestart',)]
+                                       ('restart',), ('killrestart',), ('downdelete',)]
     out = []
     for d in range(0, depth + 1):
         for combo in itertools.product(alphabet, repeat=d):
@@ -104,7 +114,7 @@ def histories(depth: int) -> list[list[tuple[str, ...]]]:
             for i, a in enumerate(combo):
                 if i and combo[i - 1] == a and a[0] != 'spec':
                     ok = False
-                if a[0] == 'delete' and ('delete', 'a') in combo[:i]:
+                if a[0] in ('delete', 'downdelete') and (('delete', 'a') in combo[:i] or ('downdelete',) in combo[:i]):
                     ok = False
             if ok:
                 out.append(list(combo))
@@ -123,7 +133,9 @@ def build(history: list[tuple[str, ...]], spacing: float, scripts: tuple[list[st
     flip = 2
     for a in history:
         t += spacing
-        if a[0] == 'spec':
+        if a[0] == 'downdelete':      # the object is deleted while no operator runs; the next process finds it marked, held by the finalizer
+            user += [(t, 'stop'), (t + spacing / 4, 'delete', 'a'), (t + spacing / 2, 'start')]
+        elif a[0] == 'spec':
             flip = 3 if flip == 2 else 2
             user.append((t, 'spec', 'a', flip))
         else:
